@@ -29,6 +29,16 @@ import (
 func EciesDecrypt(privateKey *ecdsa.PrivateKey, cipherText []byte) ([]byte, error) {
 	key := ecies.ImportECDSA(privateKey)
 
+	// A cipher text consists of the ephemeral public key, the IV of the block cipher, the encrypted message and the tag.
+	// The library only checks that there is room for the public key, the tag and 1 more byte, and panics on an incomplete IV.
+	// The tag does not protect against that: anybody can compute it, using the public key of the recipient.
+	if params := key.Params; params != nil {
+		minLength := 1 + 2*((key.Curve.Params().BitSize+7)/8) + params.BlockSize + params.Hash().Size()
+		if len(cipherText) < minLength {
+			return nil, ecies.ErrInvalidMessage
+		}
+	}
+
 	return key.Decrypt(cipherText, nil, nil)
 }
 
